@@ -49,6 +49,12 @@ Inductive schema :=
 Inductive err := EName | EValue | EOther.
 
 (* the two forms of DefaultSettings.reset that the translator recognises *)
+(* the forms of magic_to_dict's merge of keys with the same head that the translator recognises *)
+Inductive mmode :=
+| MDeep        (* update_nested_dict(existing, val) for underscore AND plain keys (812b0e7) *)
+| MFresh       (* {**existing, **val} for underscore keys only, a plain key overwrites *)
+| MInplace.    (* existing.update(val): same result as MFresh, but writes into the caller's dict *)
+
 Inductive rmode :=
 | RRebuild     (* for key, val in get_defaults_dict().items(): setattr(self, key, val) *)
 | RMerge.      (* self.update(get_defaults_dict(), _match_properties=False)   (before f095e9f) *)
@@ -88,11 +94,14 @@ Definition is_strict_int (v : val) : bool := match v with VInt _ => true | _ => 
 
 Definition ok {A} (a : A) : res A := inl a.
 
+(* what the generated tables fix for a run: the colour table and the form of magic_to_dict *)
+Record env := mkEnv { e_ct : color_table; e_mm : mmode }.
+
 Section Validate.
-Variable ct : color_table.
+Variable ct : env.
 
 Definition color1 (v : val) : res val :=
-  match ct_lookup ct v with
+  match ct_lookup (e_ct ct) v with
   | Some (Some v') => inl v'
   | Some None => inr EValue
   | None => inr EOther           (* value outside the generated pool: not modelled *)
@@ -148,16 +157,58 @@ Definition validate (k : vkind) (o : option val) : res (option val) :=
   | KOpaque, Some _ => inr EOther
   end.
 
+(* ---------------------------------------------------------------- update_nested_dict(d, u, same_keys_only, replace_None_only) *)
+Definition is_none_tree (o : option tree) : bool :=
+  match o with None | Some (Leaf None) => true | _ => false end.
+
+Fixpoint und (sko rno : bool) (d : tree) (u : tree) : tree :=
+  match u with
+  | Leaf _ => d
+  | Node ud =>
+      match d with
+      | Leaf o => if (match o with None => true | Some _ => false end) || negb rno then Node ud else d
+      | Node dd =>
+          Node ((fix go (ud : dict) (new : dict) : dict :=
+                   match ud with
+                   | [] => new
+                   | (k, v) :: r =>
+                       go r
+                         (if dmem k new || negb sko then
+                            match v with
+                            | Node _ => dset k (und sko rno (match dget k new with Some t => t | None => Node [] end) v) new
+                            | Leaf _ => if is_none_tree (dget k new) || negb rno
+                                        then (if negb sko || dmem k new then dset k v new else new)
+                                        else new
+                            end
+                          else new)
+                   end) ud dd)
+      end
+  end.
+
 (* ---------------------------------------------------------------- magic_to_dict *)
 Definition magic_step (sep : ascii) (new : dict) (kv : string * tree) : dict :=
   match split_on sep (fst kv) with
   | [] => new
-  | [k0] => dset k0 (snd kv) new
   | k0 :: rest =>
       let sub := join_with (String sep EmptyString) rest in
-      match dget k0 new with
-      | Some (Node d') => dset k0 (Node (dset sub (snd kv) d')) new    (* new[k0].update({sub: v}) *)
-      | _ => dset k0 (Node [(sub, snd kv)]) new
+      match e_mm ct with
+      | MDeep =>
+          (* val = v if len(keys) == 1 else {sep.join(keys[1:]): v};
+             both dicts -> new[k0] = update_nested_dict(new[k0], val), else new[k0] = val *)
+          let val := match rest with [] => snd kv | _ :: _ => Node [(sub, snd kv)] end in
+          match val, dget k0 new with
+          | Node _, Some (Node d') => dset k0 (und false false (Node d') val) new
+          | _, _ => dset k0 val new
+          end
+      | _ =>
+          match rest with
+          | [] => dset k0 (snd kv) new
+          | _ :: _ =>
+              match dget k0 new with
+              | Some (Node d') => dset k0 (Node (dset sub (snd kv) d')) new    (* {**new[k0], **{sub: v}} *)
+              | _ => dset k0 (Node [(sub, snd kv)]) new
+              end
+          end
       end
   end.
 
@@ -194,34 +245,6 @@ Fixpoint lin (sep : string) (t : tree) : dict :=
                                          (lin sep t') acc)
              end
          end) d []
-  end.
-
-(* ---------------------------------------------------------------- update_nested_dict(d, u, same_keys_only, replace_None_only) *)
-Definition is_none_tree (o : option tree) : bool :=
-  match o with None | Some (Leaf None) => true | _ => false end.
-
-Fixpoint und (sko rno : bool) (d : tree) (u : tree) : tree :=
-  match u with
-  | Leaf _ => d
-  | Node ud =>
-      match d with
-      | Leaf o => if (match o with None => true | Some _ => false end) || negb rno then Node ud else d
-      | Node dd =>
-          Node ((fix go (ud : dict) (new : dict) : dict :=
-                   match ud with
-                   | [] => new
-                   | (k, v) :: r =>
-                       go r
-                         (if dmem k new || negb sko then
-                            match v with
-                            | Node _ => dset k (und sko rno (match dget k new with Some t => t | None => Node [] end) v) new
-                            | Leaf _ => if is_none_tree (dget k new) || negb rno
-                                        then (if negb sko || dmem k new then dset k v new else new)
-                                        else new
-                            end
-                          else new)
-                   end) ud dd)
-      end
   end.
 
 (* ---------------------------------------------------------------- MagicProperties *)
